@@ -88,8 +88,9 @@ Definition mismatch (c : ecase) : option string :=
   match chk "nlp_on_big" (with_opts o (Some (big c)) (Some false) (Some true) false) (extra c "nlp_on_big") with Some s => Some s | None =>
   match chk "boost_big" (with_opts o (Some (big c)) None None false) (extra c "boost_big") with Some s => Some s | None =>
   match chk "noboost_big" (with_opts o (Some (big c)) None None true) (extra c "noboost_big") with Some s => Some s | None =>
-  chk "cached_after_variants" o (extra c "cached_after_variants")
-  end end end end end end end.
+  match chk "cached_after_variants" o (extra c "cached_after_variants") with Some s => Some s | None =>
+  chk "cached_after_refresh" o (extra c "cached_after_refresh")
+  end end end end end end end end.
 
 (* which path answered, according to the model *)
 Definition path_of (c : ecase) : string :=
@@ -136,7 +137,7 @@ Definition c01_check (c : ecase) : option string :=
       | Some r => tag name (c01_pred n (match lim with Some l => l | None => limit_in_force dflt o end) r)
       | None => None end in
   first_some [ tag (path_of c) (c01_pred n (limit_in_force 10%Z o) (k_obs c));
-               on "fuzzy_on" 10%Z None; on "fuzzy_off" 10%Z None; on "cached1" 10%Z None; on "cached2" 10%Z None; on "cached_after_variants" 10%Z None;
+               on "fuzzy_on" 10%Z None; on "fuzzy_off" 10%Z None; on "cached1" 10%Z None; on "cached2" 10%Z None; on "cached_after_variants" 10%Z None; on "cached_after_refresh" 10%Z None;
                on "legacy_pipeline" 5%Z None; on "search" 10%Z None;
                on "nlp_on_big" 10%Z (Some (big c)); on "nlp_off_big" 10%Z (Some (big c)) ].
 
@@ -166,7 +167,7 @@ Definition c04_pred (c : ecase) (r : list eres) : option string :=
 
 Definition c04_check (c : ecase) : option string :=
   let on (name : string) := match extra c name with Some r => tag name (c04_pred c r) | None => None end in
-  first_some [ tag (path_of c) (c04_pred c (k_obs c)); on "fuzzy_on"; on "fuzzy_off"; on "cached1"; on "cached2"; on "cached_after_variants";
+  first_some [ tag (path_of c) (c04_pred c (k_obs c)); on "fuzzy_on"; on "fuzzy_off"; on "cached1"; on "cached2"; on "cached_after_variants"; on "cached_after_refresh";
                on "nlp_on_big"; on "nlp_off_big"; on "boost_big" ].
 
 (* ---------------------------------------------------------------- C07 *)
